@@ -108,7 +108,7 @@ func initAllow(path string) bool {
 		return true
 	}
 	switch path {
-	case "github.com/macrat/simplexer", "unicode", "strconv", "github.com/dlclark/regexp2", "github.com/dlclark/regexp2/syntax", "github.com/lithammer/dedent", "math/big", "github.com/tanaton/dtoa", "unicode/utf8":
+	case "github.com/macrat/simplexer", "unicode", "strconv", "github.com/dlclark/regexp2", "github.com/dlclark/regexp2/syntax", "github.com/lithammer/dedent", "math/big", "github.com/tanaton/dtoa", "unicode/utf8", "io", "bufio":
 		return true
 	}
 	return false
